@@ -828,13 +828,22 @@ def report(ctx, corr, problems, shrink_ok=True):
             regs = sorted(regions_of(t))
             v = {'what': p['what'], 'input': 'typedef ' + p['decl'] + ';', 'case': s, 'expected': p['expected'], 'got': p['got']}
             if regs:
+                # inside a known-finding region: one entry for the listed witness, one for the first other declaration of the region;
+                # the rest is only counted (the framework drops entries whose known_id is listed in known_findings.json)
                 v['known_id'] = regs[0]
                 v['regions'] = regs
-                corr.count('known-region-mismatch')
-                for wid, w in KNOWN_WITNESS.items():
-                    if s == w and wid not in seen_known:
-                        seen_known.add(wid)
-                        corr.known_hits.append(wid)
+                corr.count('known-region-mismatch:' + regs[0])
+                wid = next((w for w in KNOWN_WITNESS if KNOWN_WITNESS[w] == s), None)
+                if wid:
+                    if wid in seen_known:
+                        continue
+                    seen_known.add(wid)
+                    corr.known_hits.append(wid)
+                    v['known_id'] = wid
+                else:
+                    if ('other', regs[0]) in seen_known:
+                        continue
+                    seen_known.add(('other', regs[0]))
             elif shrink_ok and len(corr.violations) < 3:
                 small = shrink(ctx, t)
                 if small is not t:
